@@ -127,13 +127,13 @@ func GenValue(c *Corpus, s *StructDef, seed uint64, o VOpt) *W {
 		o.MaxDepth = 4
 	}
 	v := &vgen{r: NewRng(Mix(seed, 0x7a1)), c: c, o: o, rem: o.Budget}
-	if s.Cluster >= 0 && o.Budget >= 1500 && NewRng(Mix(seed, 0x5ca1e)).Chance(1, 2) {
-		// definitions that contain themselves: a deep chain half of the time
+	if s.Cluster >= 0 && o.Budget >= 1500 && NewRng(Mix(seed, 0x5ca1e)).Chance(1, 5) {
+		// definitions that contain themselves: a deep chain one time in five
 		v.deep = []int{70, 520, 1030, 1500}[NewRng(Mix(seed, 0xdee9)).Intn(4)]
 		v.o.MaxDepth = v.deep
 	} else if o.Budget >= 70000 {
 		switch NewRng(Mix(seed, 0x5ca1e)).Intn(4) {
-		case 0, 2:
+		case 0:
 			v.big = true
 		case 1:
 			v.deep = []int{70, 520, 1030, 1500}[NewRng(Mix(seed, 0xdee9)).Intn(4)]
